@@ -483,9 +483,18 @@ impl P2p {
         // User can give us a bad header, so validate it.
         from.validate().map_err(|_| HeaderExError::InvalidRequest)?;
 
+        if amount == 0 {
+            return Ok(Vec::new());
+        }
+
         let height = from.height() + 1;
 
-        let range = height..=height + amount - 1;
+        // `height + amount` must fit in `u64`, `HeaderSession` relies on that too
+        let Some(end) = height.checked_add(amount) else {
+            return Err(HeaderExError::InvalidRequest.into());
+        };
+
+        let range = height..=end - 1;
 
         let mut session = HeaderSession::new(range, self.cmd_tx.clone());
         let headers = session.run().await?;
